@@ -24,7 +24,7 @@ for p in props:
         need = ' '.join((m.group(2) if m else '').split())[:400]
         meta = {'property': p, 'needs_to_manifest': need,
                 'origin': 'written by an independent sub-agent that saw only the property text and a scratch worktree of /repo (no access to /verif or the contracts); ' + label,
-                'confirmed': f'tools/confirm_seed3.sh {p} {n} suite (log: confirm.log): demo passes on the unmodified tree, patch applies and builds, demo fails with the patch, full grpcgcp suite passes with the patch (re-run when the fixed test port was busy or a timing test flaked under load)',
+                'confirmed': f'tools/confirm_seed4.sh {p} {n} suite (logs: seeded/_logs/confirm10*.log): demo passes on the unmodified tree, patch applies and builds, demo fails with the patch, full grpcgcp suite passes with the patch (re-run when the fixed test port was busy or a timing test flaked under load)',
                 'checked_with': f'tools/detect_seed.sh seeded/{p}-{idx}/{patch} {p} (scratch copy of /repo with the patch applied, gocv check -prop {p} -tier quick)',
                 'detected': det, 'failing_obligations': obs}
         if f'{p}/{n}' in hist: meta['history'] = hist[f'{p}/{n}']
